@@ -792,6 +792,25 @@ func (g *gen) mutate(s string) string {
 		return s
 	}
 	pos := g.r.Intn(len(rs))
+	// round 4: a word of the grammar (statement keyword, `returns`, `map`, `any`, an HTTP method) gets a suffix / a
+	// prefix / loses its last letter: a near-keyword must not be taken for the keyword
+	if g.r.Chance(1, 5) {
+		words := []string{"syntax", "info", "import", "type", "service", "returns", "map", "any", "get", "post", "put", "delete", "interface"}
+		off := g.r.Intn(len(words))
+		for k := range words {
+			w := words[(off+k)%len(words)]
+			if i := strings.Index(s, w); i >= 0 {
+				switch g.r.Intn(3) {
+				case 0:
+					return s[:i] + w + g.r.PickS("s", "x", "_", "1") + s[i+len(w):]
+				case 1:
+					return s[:i] + g.r.PickS("x", "_") + w + s[i+len(w):]
+				default:
+					return s[:i] + w[:len(w)-1] + s[i+len(w):]
+				}
+			}
+		}
+	}
 	switch g.r.Intn(7) {
 	case 0: // delete a run
 		end := pos + g.r.Range(1, 6)
@@ -980,6 +999,7 @@ func c20Gen(r *verifh.Rng) []verifh.Section {
 		for i := 0; i < 20; i++ {
 			g := &gen{r: r.Fork(), tiny: true}
 			chunks := append(g.program(), "\x00", g.r.PickS(" garbage", "\ntype T { A int }\n", ")", ""))
+			g.class = "nul-rune"
 			sec := sectionOf("nul", i, g, chunks)
 			sec.Cfg = strings.Replace(sec.Cfg, "sure=1", "sure=0", 1)
 			secs = append(secs, sec)
